@@ -44,3 +44,6 @@ CFG = dict(
 
 # the pinned theorems depend on regenerated tables (coq/Gen): a failing translator is a broken tie
 CFG["uses_gen"] = True
+
+# a run with fewer cases than half of what the quick tier generates today would be a (partly) vacuous differential
+CFG["min_cases"] = 1987
